@@ -60,7 +60,7 @@ Same(v) == UNCHANGED v
 
 (* the writer: strictly increasing timestamps *)
 HWrite(sz) ==
-  /\ Write(sz, IF wfile = 0 THEN maxused + 1 ELSE 0)      \* the timestamp only matters when a file is created
+  /\ Write(sz, IF wfile = 0 THEN maxused + 1 ELSE 0, TRUE)      \* the timestamp only matters when a file is created
   /\ hev' = HEv("write", TRUE)
   /\ UNCHANGED <<head, tmp, hpc, hbuf, up, prevp, newp, delivered, ncrash, nsave>>
 
@@ -114,9 +114,9 @@ Crash(how) ==
   \* the object is gone: its file list, index and open file mean nothing any more
   /\ lf' = [lf EXCEPT ![R] = <<>>] /\ ridx' = [ridx EXCEPT ![R] = 0] /\ rf' = [rf EXCEPT ![R] = NoFile]
   /\ last' = [last EXCEPT ![R] = Unknown] /\ pos' = [pos EXCEPT ![R] = NoPos]
-  /\ ev' = [NoEv EXCEPT !.act = "crash", !.o = R]
+  /\ ev' = [NoEv EXCEPT !.n = 1 - ev.n, !.act = "crash", !.o = R]
   /\ hev' = HEv("crash", TRUE)
-  /\ UNCHANGED <<fsz, tsz, dir, data, nino, recsz, clock, closed, wfile, total, destroyed, taintf, maxused, ndel, nreo,
+  /\ UNCHANGED <<fsz, tsz, dir, data, wbuf, nino, recsz, clock, closed, wfile, total, destroyed, taintf, maxused, ndel, nreo,
                  npos, hbuf, prevp, newp, delivered, nsave>>
 
 (* RollLog(..., rdonly=True, head=...) : l.127-149 *)
@@ -139,8 +139,8 @@ Restart ==
                 IN ridx' = [ridx EXCEPT ![R] = r.ridx] /\ rf' = [rf EXCEPT ![R] = r.rf]
              /\ last' = [last EXCEPT ![R] = p.cur]
              /\ up' = TRUE /\ hev' = HEv("restart", TRUE)
-             /\ ev' = [NoEv EXCEPT !.act = "reopen", !.o = R]
-             /\ UNCHANGED <<fsz, tsz, dir, data, nino, recsz, clock, closed, wfile, total, pos, destroyed, taintf, maxused,
+             /\ ev' = [NoEv EXCEPT !.n = 1 - ev.n, !.act = "reopen", !.o = R]
+             /\ UNCHANGED <<fsz, tsz, dir, data, wbuf, nino, recsz, clock, closed, wfile, total, pos, destroyed, taintf, maxused,
                             ndel, nreo, npos, head, tmp, hpc, hbuf, prevp, newp, delivered, ncrash, nsave>>
 
 (* a log file disappears: while the reader is down, or ("delete_up") at any moment *)
